@@ -313,7 +313,7 @@ def check_range(W, rec, L, h, supply, bs, method, ifrange=None):
     headers = {"Range": h} if h else {}
     etag_ok = True
     if ifrange is not None:
-        r.headers["ETag"] = '"x"'
+        r.headers["ETag"] = ifrange[2] if len(ifrange) > 2 else '"x"'
         r.last_modified = T0
         headers["If-Range"] = ifrange[1]
         etag_ok = ifrange[0]
@@ -471,7 +471,9 @@ def run(shard, rec, rng):
                 check_conditional(W, rec, cell)
     from werkzeug.http import http_date
 
-    IFR = [None, (True, '"x"'), (False, '"y"'), (True, http_date(T0)), (False, http_date(T0 - timedelta(seconds=5))), (False, "garbage")]
+    IFR = [None, (True, '"x"'), (False, '"y"'), (True, http_date(T0)), (False, http_date(T0 - timedelta(seconds=5))), (False, "garbage"),
+           # an entity tag is opaque: a quoted star or a comma inside the quotes is one tag like any other
+           (False, '"*"'), (False, '"y, x"'), (False, '"x, y"'), (True, '"x, y"', '"x, y"'), (True, '"*"', '"*"'), (False, '"x"', '"*"')]
     for L in range(0, cfg["maxlen"] + 1):
         for h in RH:
             for supply in ("list", "listempty", "gen", "fw", "fwns"):
